@@ -709,3 +709,154 @@ pub fn clash_corpus() -> Vec<Program> {
     }
     out
 }
+
+// ------------------------------------------------------------------ wide receivers (C01)
+
+/// One struct whose 216 u32 fields carry every combination of
+/// {rename} x {default -/Trait/Fn} x {skip} x {multiple} x {with -/path/closure} x {map/and_then}.
+pub fn wide_fields() -> Vec<Field> {
+    let mut v = vec![];
+    let mut idx = 0;
+    for rename in [false, true] {
+        for dflt in [Dflt::None, Dflt::Trait, Dflt::Fn] {
+            for skip in [false, true] {
+                for multiple in [false, true] {
+                    for with in [With::None, With::Path, With::Closure] {
+                        for tr in [Tr::None, Tr::Map, Tr::AndThen] {
+                            let mut f = Field::new(&format!("f{idx:03}_ab"), Ty::U32);
+                            if rename {
+                                f.rename = Some(format!("rn{idx}"));
+                            }
+                            f.dflt = dflt;
+                            f.skip = skip;
+                            f.multiple = multiple;
+                            f.with = with;
+                            f.tr = tr;
+                            v.push(f);
+                            idx += 1;
+                        }
+                    }
+                }
+            }
+        }
+    }
+    v
+}
+
+pub fn wide_corpus(thorough: bool) -> Vec<Program> {
+    let mut out = vec![];
+    let mut push = |t: Trait, rule: Rule, dflt: Dflt, tr: Tr, au: Option<bool>, from_ident: bool| {
+        let mut s = StructDecl::new(t, wide_fields());
+        s.rule = rule;
+        s.dflt = dflt;
+        s.tr = tr;
+        s.allow_unknown = au;
+        s.from_ident = from_ident;
+        out.push(Program { decls: vec![Decl::Struct(s)], root: 0, family: format!("wide {} rule={:?} default={:?} transform={:?} allow_unknown={:?} from_ident={}", t.name(), rule, dflt, tr, au, from_ident) });
+    };
+    if thorough {
+        for rule in Rule::ALL {
+            for dflt in [Dflt::None, Dflt::Trait, Dflt::Fn] {
+                for tr in [Tr::None, Tr::Map, Tr::AndThen] {
+                    for au in [None, Some(true)] {
+                        push(Trait::FromMeta, rule, dflt, tr, au, false);
+                    }
+                }
+            }
+        }
+        for t in [Trait::FromDeriveInput, Trait::FromField, Trait::FromVariant, Trait::FromTypeParam, Trait::FromAttributes] {
+            for (i, rule) in Rule::ALL.iter().enumerate() {
+                let dflt = [Dflt::None, Dflt::Trait, Dflt::Fn][i % 3];
+                let tr = [Tr::None, Tr::Map, Tr::AndThen][(i / 2) % 3];
+                push(t, *rule, dflt, tr, if i % 2 == 0 { None } else { Some(true) }, false);
+                if t != Trait::FromAttributes && t != Trait::FromField {
+                    push(t, *rule, Dflt::None, Tr::None, None, true);
+                }
+            }
+        }
+    } else {
+        push(Trait::FromMeta, Rule::None, Dflt::None, Tr::None, None, false);
+        push(Trait::FromMeta, Rule::Camel, Dflt::Trait, Tr::Map, Some(true), false);
+        push(Trait::FromMeta, Rule::Screaming, Dflt::Fn, Tr::AndThen, None, false);
+        push(Trait::FromMeta, Rule::Pascal, Dflt::None, Tr::None, Some(true), false);
+        push(Trait::FromDeriveInput, Rule::Lower, Dflt::Fn, Tr::None, None, false);
+        push(Trait::FromVariant, Rule::Camel, Dflt::None, Tr::Map, None, true);
+        push(Trait::FromField, Rule::None, Dflt::Trait, Tr::None, Some(true), false);
+        push(Trait::FromTypeParam, Rule::Snake, Dflt::None, Tr::AndThen, None, false);
+        push(Trait::FromAttributes, Rule::Pascal, Dflt::Fn, Tr::None, None, false);
+    }
+    out
+}
+
+/// Mistake-free item forms for a field (C01's deeper exploration): every accepted literal form.
+pub fn valid_field_items(prog: &Program, s: &StructDecl, f: &Field) -> Vec<Item> {
+    let name = s.eff_name(f);
+    if name.contains('-') || f.skip {
+        return vec![];
+    }
+    if f.flatten {
+        let mut v = vec![];
+        match &f.ty {
+            Ty::Struct(c) | Ty::BoxStruct(c) => {
+                let child = prog.st(*c);
+                for cf in &child.fields {
+                    v.extend(valid_field_items(prog, child, cf).into_iter().take(2));
+                }
+            }
+            Ty::MapU32 => {
+                v.push(Item::nv("k", "2"));
+                v.push(Item::nv("j", "0x3"));
+                // the flatten member's own name is just another key for the child
+                v.push(Item::nv(&name, "1"));
+            }
+            _ => {}
+        }
+        return v;
+    }
+    match &f.ty {
+        Ty::U32 | Ty::OptU32 => vec![Item::nv(&name, "5"), Item::nv(&name, "\"7\""), Item::nv(&name, "0x10"), Item::nv(&name, "9u32"), Item::nv(&name, "1_1")],
+        Ty::Bool => vec![Item::word(&name), Item::nv(&name, "false"), Item::nv(&name, "\"true\"")],
+        Ty::Str => vec![Item::nv(&name, "\"s\"")],
+        Ty::Flag => vec![Item::word(&name)],
+        Ty::Struct(c) | Ty::BoxStruct(c) => {
+            let child = prog.st(*c);
+            if child.fields.len() >= 2 && !child.fields.iter().any(|cf| matches!(cf.ty, Ty::Struct(_)) || cf.flatten) {
+                let a = child.eff_name(&child.fields[0]);
+                let b = child.eff_name(&child.fields[1]);
+                vec![Item::list(&name, vec![Item::nv(&a, "1")]), Item::list(&name, vec![Item::nv(&b, "3"), Item::nv(&a, "\"2\"")])]
+            } else {
+                field_items(prog, s, f).into_iter().take(4).collect()
+            }
+        }
+        Ty::Enum(e) => {
+            let en = prog.en(*e);
+            let vn: Vec<String> = en.variants.iter().map(|v| en.eff_name(v)).collect();
+            vec![
+                Item::nv(&name, &format!("\"{}\"", vn[0])),
+                Item::list(&name, vec![Item::word(&vn[0])]),
+                Item::list(&name, vec![Item::nv(&vn[1], "4")]),
+                Item::list(&name, vec![Item::list(&vn[2], vec![Item::nv("x", "1")])]),
+            ]
+        }
+        Ty::MapU32 => vec![Item::list(&name, vec![Item::nv("k", "1")]), Item::list(&name, vec![Item::nv("k", "1"), Item::nv("j", "\"2\"")]), Item::list(&name, vec![])],
+    }
+}
+
+pub fn valid_alphabet(prog: &Program) -> Vec<Item> {
+    let s = prog.st(prog.root);
+    let mut v = vec![];
+    for f in &s.fields {
+        v.extend(valid_field_items(prog, s, f));
+    }
+    if s.allows_unknown() && !s.fields.iter().any(|f| f.flatten) {
+        v.push(Item::nv("zz", "1"));
+        v.push(Item::list("zz", vec![Item::word("a")]));
+        for f in s.fields.iter().filter(|f| f.skip) {
+            let n = s.eff_name(f);
+            if !n.contains('-') {
+                v.push(Item::nv(&n, "5"));
+            }
+        }
+    }
+    v
+}
